@@ -133,7 +133,7 @@ PROPS["C02"] = dict(
     explanation="Handle/check*/absPath*/isOpenReadOnly/readOpenHowFlags executed symbolically; oracles: ABI table, kernel int-dirfd rule, open(2) flag semantics.",
     bounds={"syscall number": "all values: the whole table plus 'unknown'", "dirfd register": "all 2^64 values x 15 *at syscalls", "open flags": "all 2^64 words for open/openat/openat2",
             "file system": "ArgPositions/Dirfd/OpenFlags: no symbolic links; Resolve: symbolic forest of 6 nodes (/a,/a/b,/a/b/c,/d,/d/e,/f), each dir/file/link/absent, 10 link targets, 4 (quick) / 19 (thorough) query strings, cwd- / AT_FDCWD- / descriptor-relative"},
-    outside=["final-component symlinks of non-following syscalls (lstat/unlink/readlink/rename: the handler always follows; not checked)", "forests beyond the 6-node skeleton", "/proc alias grammar beyond what Handle exercises here", "TOCTOU between check and use"],
+    outside=["flag-dependent final-component rule (AT_SYMLINK_NOFOLLOW / AT_SYMLINK_FOLLOW / O_NOFOLLOW: the harness drives those calls with flags 0)", "forests beyond the 6-node skeleton", "/proc alias grammar beyond what Handle exercises here", "TOCTOU between check and use"],
     assumptions=["tracee single-threaded (tid = tgid)"],
     harnesses=[
         dict(pkg=RP, run="^VerifC02_ArgPositions$", replay="model", reach=["path-syscall", "other-syscall", "unknown-number"], timeout=900),
@@ -142,6 +142,9 @@ PROPS["C02"] = dict(
         # the pathname shown to the policy is the tracee's whole NUL-terminated string (page-boundary straddling, unmapped tails): tracee-memory model of C15
         dict(pkg=PT, run="^VerifC15_GetString_Quick$", replay="model", reach=["terminated", "unterminated"]),
         dict(pkg=RP, run="^VerifC02_Resolve_Q$", tiers=["quick", "thorough"], replay="model", preempt=0, timeout=1500, reach=["kernel-resolves", "kernel-fails", "dotdot-after-symlink"]),
+        # final-component rule per call (follow / no-follow) through Handle on the symbolic forest
+        dict(pkg=RP, run="^VerifC02_FinalComponent_Q$", tiers=["quick"], replay="model", preempt=0, timeout=1500, reach=["kernel-resolves", "kernel-fails", "final-link-not-followed"]),
+        dict(pkg=RP, run="^VerifC02_FinalComponent$", tiers=["thorough"], replay="model", preempt=0, timeout=6000, max_paths=5000000),
     ] + [dict(pkg=RP, run="^VerifC02_Resolve_T%d$" % i, tiers=["thorough"], replay="model", preempt=0, timeout=6000, max_paths=5000000) for i in range(4)],
 )
 
@@ -204,7 +207,9 @@ PROPS["C04"] = dict(
     assumptions=["host process is root with all capabilities", "K-* contract clauses"],
     harnesses=[dict(pkg=FE, run="^VerifC04_OptionsBundled_p%d$" % i, replay="model", preempt=0, timeout=1500,
                     reach=["execed", "drop-caps", "nnp", "filter", "setgroups", "into-cgroup", "fexecve"] + (["stops-first"] if i else []) + ["sync"]) for i in range(4)] +
-              [dict(pkg=FE, run="^VerifC04_Options$", tiers=["thorough"], replay="model", preempt=0, timeout=30000, max_paths=30000000)],
+              [dict(pkg=FE, run="^VerifC04_Options$", tiers=["thorough"], replay="model", preempt=0, timeout=30000, max_paths=30000000),
+               # the kernel refusing an id-map file stops the launch: no program in a user namespace without its maps
+               dict(pkg=FE, run="^VerifC04_IdMapRefused$", replay="model", preempt=0, timeout=1500, reach=["start-error"])],
 )
 
 PROPS["C06"] = dict(
@@ -332,6 +337,8 @@ PROPS["C14"] = dict(
         dict(pkg=CT, run="^VerifC14_HostDefensive$", replay="model", preempt=0, reach=["accepted", "rejected"]),
         dict(pkg=CT, run="^VerifC14_DeleteSymlinkHistory$", replay="model", preempt=1, timeout=900, reach=["final-ping"]),
         dict(pkg=CT, run="^VerifC14_PlantedBetweenOpens$", replay="model", preempt=1, timeout=900, reach=["created", "reopened"]),
+        # two batches with differing flags / permissions / MkdirAll (zero values are omitted on the wire; the link model decodes INTO the destination as gob does)
+        dict(pkg=CT, run="^VerifC14_TwoBatches$", replay="model", preempt=0, timeout=900, reach=["both-batches"]),
     ],
 )
 
